@@ -365,6 +365,10 @@ func (c *Case) genWp(r *rand.Rand, tp *Pkg, must string, forceOverride bool) *Pk
 		if i == 0 && must != "" {
 			kind = must
 		}
+		if forceOverride && (kind == "generic" || kind == "recursive" || kind == "mutual" || kind == "big") {
+			// the precedence case stays small so that nothing else in the package can mask it
+			kind = pick(r, []string{"value", "plain", "newtype"})
+		}
 		switch kind {
 		case "value": // @fp.Value struct
 			need := g.chooseTCs(allTC, 60)
@@ -581,11 +585,18 @@ func (c *Case) ensureType(r *rand.Rand, p *Pkg, tc TC, t *TX, rec bool) {
 			p.Overrides = append(p.Overrides, &Override{TC: Monoid, Name: "Monoid" + pub(t.Basic), Target: "basic:" + t.Basic,
 				Variant: pick(r, []string{"sum", "product"}), AsFunc: chance(r, 25)})
 		}
+	case KBytes:
+	case KSlice:
+		if tc != Monoid { // monoid.MergeSlice needs no instance for the element
+			c.ensureType(r, p, tc, t.El[0], rec)
+		}
 	case KSeq:
 		if tc == Eq && p.SortedSeq {
 			c.ensureType(r, p, Ord, t.El[0], rec)
 		}
-		c.ensureType(r, p, tc, t.El[0], rec)
+		if tc != Monoid { // monoid.MergeSeq needs no instance for the element
+			c.ensureType(r, p, tc, t.El[0], rec)
+		}
 	case KMap:
 		if tc == Clone || tc == Show {
 			c.ensureType(r, p, tc, t.El[0], rec)
@@ -610,7 +621,10 @@ func (c *Case) ensureType(r *rand.Rand, p *Pkg, tc TC, t *TX, rec bool) {
 			// Monoid of a named basic type: monoid.Sum/Product unify by type before a recursive
 			// derivation is tried and their choice is not documented: always a directive there
 			basicNewtype := !d.IsStruct && d.Under.K == KBasic
-			add(rec && d.derivable() && len(d.Params) == 0 && !(tc == Monoid && basicNewtype))
+			// an instance the type's package derives on demand would be found before a recursive
+			// derivation here: a directive in this package makes the outcome independent of it
+			onDemandInTypePkg := d.Pkg != p && d.Pkg.findDerive(tc, d) != nil
+			add(rec && d.derivable() && len(d.Params) == 0 && !(tc == Monoid && basicNewtype) && !onDemandInTypePkg)
 		case res.mode == mDefault && tc == Clone && hasMutableStorage(t, map[*Decl]bool{}):
 			add(false)
 		}
